@@ -64,7 +64,7 @@ fn decode_once(buf: &mut BytesMut) -> Result<Result<Option<(i32, Node, Vec<world
 }
 
 pub fn decoder_prefixes(ctx: &Ctx) -> Report {
-    let n = ctx.n(3_000, 300_000);
+    let n = ctx.n(30_000, 10_000_000);
     par_cases(ctx, "decoder_prefixes", n, ctx.secs(25, 400), |i, rng, rep| {
         let id = 1 + rng.below(i32::MAX as u64 - 1) as i64;
         let big = rng.chance(1, 40);
@@ -279,7 +279,7 @@ fn gen_sequence(rng: &mut Rng, max_msgs: usize, allow_big: bool) -> (Vec<Vec<u8>
 
 /// Random sequences under the standard partitions.
 pub fn partitions(ctx: &Ctx) -> Report {
-    let n = ctx.n(1_500, 150_000);
+    let n = ctx.n(6_000, 2_000_000);
     par_cases(ctx, "partitions", n, ctx.secs(30, 600), |i, rng, rep| {
         let (msgs, expect) = gen_sequence(rng, 30, true);
         let total: usize = msgs.iter().map(|m| m.len()).sum();
@@ -303,7 +303,7 @@ pub fn partitions(ctx: &Ctx) -> Report {
 
 /// Every single split point (and, for short sequences, every pair) of a sequence's byte stream.
 pub fn exhaustive_splits(ctx: &Ctx) -> Report {
-    let n = ctx.n(60, 3_000);
+    let n = ctx.n(400, 100_000);
     let mut rep = par_cases(ctx, "exhaustive_splits", n, ctx.secs(40, 600), |i, rng, rep| {
         let pairs = i % 4 == 0;
         let (msgs, expect) = gen_sequence(rng, if pairs { 2 } else { 4 }, false);
